@@ -254,7 +254,7 @@ func hashAliasInputs(r *ev.Run, G *gprops, gs *gstats, vers []int) {
 				for _, a := range aliasesOf(name) {
 					repl := append(append([]string{}, toks[:i]...), a.alias+":"+val)
 					repl = append(repl, toks[i+1:]...)
-					run(ver, strings.Join(repl, "/")) // the alias instead of the metric
+					run(ver, strings.Join(repl, "/"))  // the alias instead of the metric
 					run(ver, seed+"/"+a.alias+":"+val) // the alias besides the metric
 				}
 				for _, a := range aliasesOf(val) {
